@@ -1,5 +1,95 @@
-# Sidecar contracts for src/aioquic/quic/congestion/reno.py  (R is injected by the loader)
+# Sidecar contracts for src/aioquic/quic/congestion/{base,reno,cubic}.py  (R is injected by the loader)
+#
+# C08.  Three layers:
+#  (1) the INTERFACE contract of QuicCongestionControl (abstract base): what QuicPacketRecovery relies on when it calls
+#      self._cc.<callback>() - the in-flight counter moves by exactly the size of the packets handed in, nothing else
+#      of the recovery state is touched, the window stays positive;
+#  (2) RenoCongestionControl and (3) CubicCongestionControl each satisfy the interface contract (same preconditions,
+#      the interface postconditions plus their own) and keep the class invariant
+#      congestion_window >= 2 * max_datagram_size  ("the congestion window never drops below two datagrams").
+#
+# Sums over a list of packets are stated through a GHOST PARAMETER ps (prefix sums):  ps[0] = 0,
+# ps[k] = ps[k-1] + packets[k-1].sent_bytes (1 <= k <= len).  Any map satisfying the recurrence is the prefix-sum function (induction),
+# so `bytes_in_flight == old - ps[len(packets)]` says "reduced by exactly the total size of the packets".
 
+R.field_types("QuicSentPacket", sent_bytes="int", sent_time="Optional[float]", in_flight="bool")
+R.field_types("QuicCongestionControl", bytes_in_flight="int", congestion_window="int", ssthresh="Optional[int]")
+R.contract("QuicCongestionControl.__init__", inline=True)
+R.contract("QuicRttMonitor.__init__", trusted=True, note="HyStart monitor state is not property-relevant; constructor assumed total")
+
+# ---------------------------------------------------------------------------------------------- interface (base class)
+R.invariant("QuicCongestionControl", ["self.congestion_window > 0"])  # inherited by both subclasses (proved there)
+
+_PS_REQ = [
+    "ps[0] == 0",
+    "forall(lambda k: implies(1 <= k <= len(packets), ps[k] == ps[k - 1] + at(packets, k - 1).sent_bytes), pattern=ps[k])",
+]
+_SENT_TIMES = "forall(lambda k: implies(0 <= k < len(packets), packets[k].sent_time is not None))"
+_IFACE_MOD = ["self.bytes_in_flight", "self.congestion_window", "self.ssthresh"]
+
+IFACE = {
+    "on_packet_acked": dict(
+        requires=["packet.sent_bytes >= 0", "packet.sent_time is not None"],
+        ensures=["self.bytes_in_flight == old(self.bytes_in_flight) - packet.sent_bytes"],
+    ),
+    "on_packet_sent": dict(
+        requires=["packet.sent_time is not None"],
+        ensures=["self.bytes_in_flight == old(self.bytes_in_flight) + packet.sent_bytes"],
+    ),
+    "on_packets_expired": dict(
+        params={"packets": "list[QuicSentPacket]"},
+        ghost_params={"ps": "map[int,int]"},
+        ghost_native={"ps": "prefix_sums([p.sent_bytes for p in packets])"},
+        requires=list(_PS_REQ),
+        ensures=["self.bytes_in_flight == old(self.bytes_in_flight) - ps[len(packets)]", "self.congestion_window == old(self.congestion_window)"],
+    ),
+    "on_packets_lost": dict(
+        params={"packets": "list[QuicSentPacket]"},
+        ghost_params={"ps": "map[int,int]"},
+        ghost_native={"ps": "prefix_sums([p.sent_bytes for p in packets])"},
+        requires=list(_PS_REQ) + [_SENT_TIMES],
+        ensures=["self.bytes_in_flight == old(self.bytes_in_flight) - ps[len(packets)]"],
+    ),
+    "on_rtt_measurement": dict(
+        requires=[],
+        ensures=["self.bytes_in_flight == old(self.bytes_in_flight)", "self.congestion_window == old(self.congestion_window)"],
+    ),
+}
+for _m, _c in IFACE.items():
+    # the abstract methods have no body: these contracts are only ever APPLIED (at self._cc.<m>() in recovery.py);
+    # they are discharged by the subclass contracts below, which repeat them clause by clause
+    R.contract("QuicCongestionControl." + _m, modifies=list(_IFACE_MOD), prop=["C08"], **{k: (list(v) if isinstance(v, list) else dict(v)) for k, v in _c.items()})
+
+
+def _impl(cls, meth, extra_modifies=(), extra_ensures=(), **kw):
+    """contract of an implementation = interface contract (identical preconditions, all interface postconditions)
+    + its own postconditions; fields outside the interface may be modified (callers typed at the base cannot see them)"""
+    c = IFACE[meth]
+    R.contract(
+        "%s.%s" % (cls, meth),
+        params=dict(c.get("params", {})),
+        ghost_params=dict(c.get("ghost_params", {})),
+        ghost_native=dict(c.get("ghost_native", {})),
+        requires=list(c["requires"]),
+        modifies=list(_IFACE_MOD) + list(extra_modifies),
+        ensures=list(c["ensures"]) + list(extra_ensures),
+        check_frame=True,
+        prop=["C08"],
+        **kw,
+    )
+
+
+_LOOP_SUM = dict(
+    invariant=[
+        "0 <= _i0 <= len(packets)",
+        "self.bytes_in_flight == old(self.bytes_in_flight) - ps[_i0]",
+        "self.congestion_window == old(self.congestion_window)",
+        "self._max_datagram_size == old(self._max_datagram_size)",
+        "self.ssthresh == old(self.ssthresh)",
+    ],
+)
+
+# ---------------------------------------------------------------------------------------------- Reno
 R.field_types(
     "RenoCongestionControl",
     bytes_in_flight="int",
@@ -10,102 +100,149 @@ R.field_types(
     _congestion_stash="int",
     _rtt_monitor="QuicRttMonitor",
 )
-R.field_types("QuicSentPacket", sent_bytes="int", sent_time="Optional[float]", in_flight="bool")
-
-# C08: the congestion window never drops below two datagrams (class invariant: established by
-# __init__, preserved by every window-changing callback).
 R.invariant(
     "RenoCongestionControl",
     ["self._max_datagram_size > 0", "self.congestion_window >= 2 * self._max_datagram_size", "self._congestion_stash >= 0"],
 )
-
 R.contract(
     "RenoCongestionControl.__init__",
     requires=["max_datagram_size > 0"],
     ensures=["self.congestion_window == 10 * max_datagram_size", "self._max_datagram_size == max_datagram_size"],
+    check_frame=True,
     prop=["C08"],
 )
-
-R.field_types("QuicCongestionControl", bytes_in_flight="int", congestion_window="int", ssthresh="Optional[int]")
-R.contract("QuicCongestionControl.__init__", inline=True)
-R.contract("QuicRttMonitor.__init__", trusted=True, note="HyStart monitor state is not property-relevant; constructor assumed total")
-
-R.contract(
-    "RenoCongestionControl.on_packet_acked",
-    requires=["packet.sent_bytes >= 0", "packet.sent_time is not None"],
-    modifies=["self.bytes_in_flight", "self.congestion_window", "self._congestion_stash"],
-    ensures=[
-        "self.bytes_in_flight == old(self.bytes_in_flight) - packet.sent_bytes",
-        "self.congestion_window >= old(self.congestion_window)",
-    ],
-    prop=["C08"],
-)
-
-R.contract(
-    "RenoCongestionControl.on_packet_sent",
-    modifies=["self.bytes_in_flight"],
-    ensures=["self.bytes_in_flight == old(self.bytes_in_flight) + packet.sent_bytes", "self.congestion_window == old(self.congestion_window)"],
-    prop=["C08"],
-)
-
-R.contract(
-    "RenoCongestionControl.on_packets_lost",
-    params={"packets": "list[QuicSentPacket]"},
-    requires=["forall(lambda k: implies(0 <= k < len(packets), packets[k].sent_time is not None))"],
-    modifies=["self.bytes_in_flight", "self.congestion_window", "self.ssthresh", "self._congestion_recovery_start_time"],
-    ensures=[
+_impl("RenoCongestionControl", "on_packet_acked", extra_modifies=["self._congestion_stash"], extra_ensures=["self.congestion_window >= old(self.congestion_window)"])
+_impl("RenoCongestionControl", "on_packet_sent", extra_ensures=["self.congestion_window == old(self.congestion_window)"])
+_impl("RenoCongestionControl", "on_packets_expired", loops={0: _LOOP_SUM})
+_impl(
+    "RenoCongestionControl",
+    "on_packets_lost",
+    extra_modifies=["self._congestion_recovery_start_time"],
+    extra_ensures=[
         "self.congestion_window >= 2 * self._max_datagram_size",
         "self.congestion_window <= max(old(self.congestion_window), 2 * self._max_datagram_size)",
         "self._max_datagram_size == old(self._max_datagram_size)",
     ],
-    loops={
-        0: dict(
-            invariant=[
-                "0 <= _i0 <= len(packets)",
-                "self.congestion_window == old(self.congestion_window)",
-                "self._max_datagram_size == old(self._max_datagram_size)",
-                "self._congestion_stash == old(self._congestion_stash)",
-                "implies(len(packets) == 0, self.bytes_in_flight == old(self.bytes_in_flight))",
-            ],
-        )
-    },
+    locals={"lost_largest_time": "Optional[float]"},
+    loops={0: dict(invariant=_LOOP_SUM["invariant"] + ["self._congestion_stash == old(self._congestion_stash)", "lost_largest_time is not None"])},
+)
+# HyStart RTT monitor (base.py): only "returns a bool, never raises, touches only its own sample state" matters for C08.
+# Its constructor builds the sample buffer with a list comprehension (outside the subset): the constructor contract is
+# ASSUMED (it states what the five assignments establish); add_rtt and is_rtt_increasing are verified against the
+# class invariant below.
+R.field_types("QuicRttMonitor", _samples="list[float]", _sample_idx="int", _size="int", _ready="bool", _increases="int",
+              _filtered_min="Optional[float]", _sample_max="Optional[float]", _sample_min="Optional[float]", _sample_time="float")
+R.invariant(
+    "QuicRttMonitor",
+    [
+        "self._size > 0 and len(self._samples) == self._size",
+        "0 <= self._sample_idx < self._size",
+        "implies(self._ready, self._sample_max is not None and self._sample_min is not None)",
+    ],
+)
+R.contracts["QuicRttMonitor.__init__"].ensures = ["self._size == 5 and len(self._samples) == 5 and self._sample_idx == 0 and not self._ready"]
+_RTTM_MOD = ["self._samples", "self._sample_idx", "self._ready", "self._sample_max", "self._sample_min"]
+R.contract(
+    "QuicRttMonitor.add_rtt",
+    modifies=list(_RTTM_MOD),
+    ensures=["self._size == old(self._size)"],
+    loops={0: dict(invariant=["0 <= _i0", "self._sample_max is not None and self._sample_min is not None", "len(self._samples) == self._size",
+                              "self._ready and self._sample_idx == old(self._sample_idx + 1 if self._sample_idx + 1 < self._size else 0)"])},
+    check_frame=True,
     prop=["C08"],
 )
+R.contract(
+    "QuicRttMonitor.is_rtt_increasing",
+    returns="bool",
+    modifies=list(_RTTM_MOD) + ["self._increases", "self._filtered_min", "self._sample_time"],
+    ensures=[],
+    check_frame=True,
+    prop=["C08"],
+)
+_RTTM_ALL = ["QuicRttMonitor.%s[*]" % f for f in ("_samples", "_sample_idx", "_ready", "_increases", "_filtered_min", "_sample_max", "_sample_min", "_sample_time")]
+_impl("RenoCongestionControl", "on_rtt_measurement", extra_modifies=_RTTM_ALL)
 
-# CUBIC: only the loss callback (window floor) is under contract; on_packet_acked uses cube roots.
+# ---------------------------------------------------------------------------------------------- CUBIC
 R.field_types(
     "CubicCongestionControl",
     bytes_in_flight="int",
     congestion_window="int",
     ssthresh="Optional[int]",
+    additive_increase_factor="int",
     _max_datagram_size="int",
     _congestion_recovery_start_time="float",
-    _W_max="Optional[int]",
+    _rtt_monitor="QuicRttMonitor",
+    rtt="float",
+    last_ack="float",
+    K="float",
+    _W_max="int",  # only ever assigned ints (reset, on_packets_lost); the `is not None` test in on_packets_lost is then constant
+    _W_est="int",
+    _cwnd_epoch="int",
+    _t_epoch="float",
+    _first_slow_start="bool",
     _starting_congestion_avoidance="bool",
 )
-R.contract(
-    "CubicCongestionControl.on_packets_lost",
-    params={"packets": "list[QuicSentPacket]"},
-    use_invariant=False,
-    requires=[
+# window floor as an inductive class invariant.  The last clause is what the Reno-friendly branch of on_packet_acked
+# needs: once congestion avoidance has been entered (_first_slow_start and _starting_congestion_avoidance both false)
+# the Reno estimate _W_est has been initialised from a window that was itself >= 2 datagrams, and it only grows.
+R.invariant(
+    "CubicCongestionControl",
+    [
         "self._max_datagram_size > 0",
+        "self.additive_increase_factor == self._max_datagram_size",
         "self.congestion_window >= 2 * self._max_datagram_size",
-        "forall(lambda k: implies(0 <= k < len(packets), packets[k].sent_time is not None))",
+        "self._first_slow_start or self._starting_congestion_avoidance or self._W_est >= 2 * self._max_datagram_size",
     ],
-    modifies=["self.bytes_in_flight", "self.congestion_window", "self.ssthresh", "self._congestion_recovery_start_time", "self._W_max", "self._starting_congestion_avoidance"],
+)
+# float ** (1/3): outside exact real arithmetic.  K (its only consumer) enters the window only through W_cubic(), whose
+# value is compared, clamped to [cwnd, 1.5 cwnd] and never used un-clamped, so NO fact about the cube root is needed:
+# the result is an arbitrary real.  (Assumed: the float power does not raise.)
+R.contract("better_cube_root", trusted=True, returns="float", note="float ** (1/3) modelled as an arbitrary real number (no facts assumed beyond 'returns a float without raising')")
+R.contract("CubicCongestionControl.W_cubic", inline=True)
+R.contract("CubicCongestionControl.is_reno_friendly", inline=True)
+R.contract("CubicCongestionControl.is_concave", inline=True)
+
+_CUBIC_RESET_MOD = ["self.congestion_window", "self.ssthresh", "self._first_slow_start", "self._starting_congestion_avoidance", "self.K", "self._W_est", "self._cwnd_epoch", "self._t_epoch", "self._W_max"]
+# reset() must NOT touch the in-flight ledger: bytes_in_flight is neither in `modifies` (frame check) nor changed
+R.contract(
+    "CubicCongestionControl.reset",
+    use_invariant=False,  # also called from __init__ before the invariant is established
+    requires=["self._max_datagram_size > 0"],
+    modifies=list(_CUBIC_RESET_MOD),
     ensures=[
+        "self.bytes_in_flight == old(self.bytes_in_flight)",
+        "self.congestion_window == 10 * self._max_datagram_size",
+        "self.ssthresh is None",
+        "self._first_slow_start and not self._starting_congestion_avoidance",
+        "self._max_datagram_size == old(self._max_datagram_size) and self.additive_increase_factor == old(self.additive_increase_factor)",
+    ],
+    check_frame=True,
+    prop=["C08"],
+)
+R.contract(
+    "CubicCongestionControl.__init__",
+    requires=["max_datagram_size > 0"],
+    ensures=["self.congestion_window == 10 * max_datagram_size", "self._max_datagram_size == max_datagram_size"],
+    check_frame=True,
+    prop=["C08"],
+)
+_impl(
+    "CubicCongestionControl",
+    "on_packet_acked",
+    extra_modifies=["self.last_ack", "self._first_slow_start", "self._starting_congestion_avoidance", "self._W_max", "self._t_epoch", "self._cwnd_epoch", "self._W_est", "self.K"],
+    extra_ensures=["self._max_datagram_size == old(self._max_datagram_size)"],
+)
+_impl("CubicCongestionControl", "on_packet_sent", extra_modifies=list(_CUBIC_RESET_MOD))
+_impl("CubicCongestionControl", "on_packets_expired", loops={0: _LOOP_SUM})
+_impl(
+    "CubicCongestionControl",
+    "on_packets_lost",
+    extra_modifies=["self._congestion_recovery_start_time", "self._W_max", "self._starting_congestion_avoidance"],
+    extra_ensures=[
         "self.congestion_window >= 2 * self._max_datagram_size",
         "implies(self.ssthresh is not None and self.congestion_window != old(self.congestion_window), self.ssthresh >= 2 * self._max_datagram_size)",
     ],
-    loops={
-        0: dict(
-            invariant=[
-                "0 <= _i0 <= len(packets)",
-                "self.congestion_window == old(self.congestion_window)",
-                "self._max_datagram_size == old(self._max_datagram_size)",
-                "self.ssthresh == old(self.ssthresh)",
-            ],
-        )
-    },
-    prop=["C08"],
+    locals={"lost_largest_time": "Optional[float]"},
+    loops={0: dict(invariant=_LOOP_SUM["invariant"] + ["lost_largest_time is not None"])},
 )
+_impl("CubicCongestionControl", "on_rtt_measurement", extra_modifies=["self.rtt"] + _RTTM_ALL)
